@@ -48,8 +48,12 @@ def c05_class(c, ir, mr, verdict):
         return "KF-repeated-option"
     if s["win"].startswith("mtu*"):
         return "KF-window-search"
-    if s["win"].startswith("mss*") and (s["mss"] == "*" or int(s["mss"]) * int(s["win"][4:]) > 65535 or int(s["mss"]) < 100):
-        return "KF-window-search"
+    if s["win"].startswith("mss*"):
+        n = int(s["win"][4:])
+        # free MSS: the code draws it from [100, 65535 // N] and writes MSS*N, which p0f reads back as mss*N through the first
+        # divisor; only when that range is empty (N > 655) would a satisfying packet have to be searched via the other divisors
+        if (s["mss"] == "*" and 65535 // n < 100) or (s["mss"] != "*" and (int(s["mss"]) * n > 65535 or int(s["mss"]) < 100)):
+            return "KF-window-search"
     return None
 
 
